@@ -651,6 +651,9 @@ def r01_caches(ctx, tom):
     r02c(ctx)
     # two wrapper indexes that are one dict hand a Column where a Row is asked for (and the reverse): every reset gives each index its own dict
     r02f(ctx)
+    # a memo that nothing invalidates answers from before the edit
+    from .c02 import r02h
+    r02h(ctx)
     # the bulk editors of the grid read their rows through Table.traverse: rows that are mis-stamped, skipped, or aliases of one another are
     # written back to the wrong place / several places (R08f is a necessary condition of the grid model as well)
     from .c08 import r08f
